@@ -1,6 +1,6 @@
 """C16 With auth on, no data endpoint (HTTP or gRPC) is served without a valid token."""
 import re
-from rn import cfg, util, routes
+from rn import cfg, util, routes, walk
 from rn.flow import Taint, field_place_src
 from rn.tables import check_table
 from rn.absint import Ref, SymObj, BV, Opaque
@@ -45,7 +45,8 @@ def simple_regex_matches(rx, path):
     if rx.startswith('(?i)'):
         flags = re.I
         rx = rx[4:]
-    if not re.fullmatch(r'(?:[A-Za-z0-9_/\-]|\\\.|\.\*|\(|\)|\|)*', rx):
+    # subset on which Rust's regex crate and python's re agree for ASCII paths: literals, classes, groups, alternation, quantifiers, anchors
+    if not re.fullmatch(r'(?:[A-Za-z0-9_/\-.?+*()|\[\]^${},:]|\\[.dwsDWS/\-\\?+*()|\[\]^${}])*', rx) or re.search(r'\(\?[^:]', rx):
         raise ValueError('regex %r is outside the supported subset' % rx)
     return re.search(rx, path, flags) is not None
 
@@ -76,6 +77,8 @@ def run(ck, fb):
     r16a(ck, fb)
     r16b(ck, fb, rows)
     r16d(ck, fb)
+    r16f(ck, fb, rows)
+    r16g(ck, fb)
     r16e(ck, fb)
 
 
@@ -131,12 +134,23 @@ def r16b(ck, fb, rows):
                     'and listed in IGNORE_PATH only if the statement allows it; IGNORE_PATH holds exact literal paths from the allowed set')
     try:
         ib, ign, pushes = static_strs(fb, AM + 'IGNORE_PATH')
-        ab, api_rx = static_regex(fb, AM + 'API_PATH')
-        rb, rn_rx = static_regex(fb, AM + 'R_NACOS_API_PATH')
     except Exception as e:
-        ck.bad('R16b', 'anchor:tables', '-', 'middleware tables not found: %s' % e)
+        ck.bad('R16b', 'anchor:tables', '-', 'IGNORE_PATH table not found: %s' % e)
         return
-    ck.analysed(ib, ab, rb)
+    # the regex statics are those the middleware actually consults (discovered, not named)
+    rxs = []
+    ab = ib
+    for o in fb.find(r'auth_middle::ApiCheckAuthMiddleware<S> as actix_web::dev::Service<actix_web::dev::ServiceRequest>>::call$'):
+        for b2 in util.region(fb, o):
+            for st in b2.calls(r'regex::Regex::is_match$'):
+                nm = _static_name(b2, st.args[0])
+                if nm:
+                    try:
+                        ab, rx = static_regex(fb, nm)
+                        rxs.append(rx)
+                    except Exception:
+                        rxs.append(None)
+    ck.analysed(ib, ab)
     ck.require(None not in ign and not pushes, 'R16b', 'IGNORE_PATH:literal', ib.where(), 'IGNORE_PATH is not a list of string literals (or is extended at run time)')
     ign = [x for x in ign if x]
     ck.floor('R16b', 'IGNORE_PATH entries', len(ign), 4)
@@ -144,8 +158,8 @@ def r16b(ck, fb, rows):
         ck.require(p in ALLOWED_IGNORE, 'R16b', 'IGNORE_PATH:%s' % p, ib.where(),
                    'IGNORE_PATH exempts %s from authentication, which the property does not allow' % p, 'allowed')
         ck.require(not re.search(r'[{}*?\\]', p), 'R16b', 'IGNORE_PATH:exact:%s' % p, ib.where(), 'IGNORE_PATH entry %s is a pattern' % p)
-    ck.require(api_rx is not None and rn_rx is not None, 'R16b', 'regex-literals', ab.where(), 'API_PATH / R_NACOS_API_PATH are not regex literals')
-    if api_rx is None or rn_rx is None:
+    ck.require(bool(rxs) and None not in rxs, 'R16b', 'regex-literals', ab.where(), 'the path regexes consulted by the middleware are not regex literals (%s)' % rxs)
+    if not rxs or None in rxs:
         return
     n = 0
     protected = []
@@ -158,7 +172,7 @@ def r16b(ck, fb, rows):
                 continue
             n += 1
             try:
-                m = simple_regex_matches(api_rx, p) or simple_regex_matches(rn_rx, p)
+                m = any(simple_regex_matches(rx, p) for rx in rxs)
             except ValueError as e:
                 ck.bad('R16b', 'regex-subset', ab.where(), str(e))
                 return
@@ -167,7 +181,7 @@ def r16b(ck, fb, rows):
                 ck.require(p in ALLOWED_IGNORE, 'R16b', 'route-ignored:%s' % key, r.site.where(), 'route %s is served without a token' % key, 'allowed exemption')
             else:
                 ck.require(m, 'R16b', 'route-checked:%s' % key, r.site.where(),
-                           'route %s (handler %s) is under a protected prefix but neither API_PATH nor R_NACOS_API_PATH matches it: it is served without a token' % (key, r.handler))
+                           'route %s (handler %s) is under a protected prefix but none of the path regexes the middleware consults matches it: it is served without a token' % (key, r.handler))
                 protected.append(r)
     ck.floor('R16b', 'protected route rows', n, 50)
     # the middleware uses exactly these tables
@@ -210,30 +224,252 @@ def r16b(ck, fb, rows):
     ck.ok('R16c', 'alias-scan', '', '%d protected handlers, %d aliases examined' % (len(prot_handlers), n_alias))
 
 
+# ---------------------------------------------------------------------------------------------------------------------------
+# whole-pipeline evaluation of the HTTP middleware per route (name-independent): the synchronous part of call() is walked with
+# every switch decided from the tree's own tables (regex statics, literal lists, enable_auth = true); the bool values captured
+# by the async block are then fed to a walk of the block under every "no valid token" assignment.
+
+class PipeErr(Exception):
+    pass
+
+
+def _static_name(b, operand):
+    d = cfg.strip_calls(b, cfg.describe_operand(b, operand))
+    if d['k'] == 'const':
+        m = re.search(r'&?(rnacos::[\w:]+)$', d['c'].get('ty', '') or '')
+        if m:
+            return m.group(1)
+    return None
+
+
+class OuterEval:
+    def __init__(self, fb, body, path, path_sources):
+        self.fb, self.b, self.path = fb, body, path
+        self.path_sources = path_sources
+        self.cache = {}
+        self.consulted = set()
+        self.reach = walk.reach_under(body, self.decide)
+
+    def call_value(self, term):
+        name = cfg.callee_name(term) or ''
+        args = term.get('args') or []
+        if name.endswith('regex::Regex::is_match') or name.endswith('Regex::is_match'):
+            st = _static_name(self.b, args[0])
+            if not st:
+                raise PipeErr('is_match on something that is not a lazy_static regex')
+            self.consulted.add(st)
+            _, rx = static_regex(self.fb, st)
+            if rx is None:
+                raise PipeErr('%s is not a regex literal' % st)
+            self.arg_is_path(args[1])
+            return simple_regex_matches(rx, self.path)
+        if name.endswith('::contains'):
+            st = _static_name(self.b, args[0])
+            if not st:
+                raise PipeErr('contains() on something that is not a lazy_static list')
+            self.consulted.add(st)
+            _, lst, pushes = static_strs(self.fb, st)
+            if None in lst or pushes:
+                raise PipeErr('%s is not a list of string literals' % st)
+            self.arg_is_path(args[1])
+            return self.path in lst
+        return None
+
+    def arg_is_path(self, operand):
+        d = cfg.describe_operand(self.b, operand)
+        while d['k'] == 'ref':
+            d = cfg.describe_operand(self.b, {'cp': d['pl']}) if 'pl' in d else d
+            break
+        txt = cfg.fmt_desc(cfg.describe_operand(self.b, operand))
+        src = [x for x in self.path_sources if x in txt]
+        if not src:
+            raise PipeErr('a path table is consulted with %s, not with the request path' % txt[:80])
+
+    def decide(self, bb, term):
+        d = cfg.describe_operand(self.b, term['discr'])
+        neg = False
+        while d['k'] == 'un' and d['op'] == 'Not':
+            neg = not neg
+            d = cfg.describe_operand(self.b, d['a'])
+        v = None
+        if d['k'] == 'place' and d['fields'][-1:] == ['openapi_enable_auth']:
+            v = True
+        elif d['k'] == 'call':
+            v = self.call_value(d['term'])
+        elif d['k'] == 'multi':
+            v = None
+        if v is None:
+            return None
+        return walk.bool_labels(term, (not v) if neg else v)
+
+    def value(self, operand, depth=0):
+        """bool value of an operand at the end of the walk, or None"""
+        if depth > 8:
+            return None
+        if 'c' in operand:
+            v = operand['c'].get('v')
+            return v in (True, 'true', 1)
+        from rn.facts import op_place, pl_local, pl_proj
+        p = op_place(operand)
+        if p is None:
+            return None
+        if pl_proj(p):
+            f = cfg.origin_fields(self.b, operand)
+            return True if f[-1:] == ['openapi_enable_auth'] else None
+        l = pl_local(p)
+        defs = [d for d in self.b.defs.get(l, []) if d[1] in self.reach]
+        if len(defs) != 1:
+            d1 = walk._latest_def(self.b, defs) if defs else None
+            if d1 is None:
+                return None
+            defs = [d1]
+        kind, bb, j, node = defs[0]
+        if kind == 'call':
+            return self.call_value(node)
+        rv = node['rv']
+        if rv['k'] == 'use':
+            return self.value(rv['op'], depth + 1)
+        if rv['k'] == 'un' and rv['op'] == 'Not':
+            v = self.value(rv['a'], depth + 1)
+            return None if v is None else (not v)
+        return None
+
+
+def r16f(ck, fb, rows):
+    ck.rule('R16f', 'per route, end to end: with enable_auth = true the synchronous part of ApiCheckAuthMiddleware::call is evaluated on the route '
+                    'path against the tree\'s own regex / literal tables, the captured flags are fed to the async block, and under every '
+                    '"no valid token" assignment (empty token; non-empty token with session lookup Err / Ok(None)) service.call must be '
+                    'unreachable unless the path is an allowed exemption; with a valid session it must be reachable')
+    outer = [b for b in fb.find(r'auth_middle::ApiCheckAuthMiddleware<S> as actix_web::dev::Service<actix_web::dev::ServiceRequest>>::call$')]
+    if not outer:
+        ck.bad('R16f', 'anchor:call', '-', 'ApiCheckAuthMiddleware::call not found')
+        return
+    o = outer[0]
+    inner = [b for b in fb.tree(o.name)[1:] if b.calls(r'Service<.*>::call$|dev::Service<Req>::call$')]
+    aggs = [(i, j, st) for (i, j, st) in o.stmts() if st.get('rv') and st['rv']['k'] == 'agg' and st['rv'].get('ak') in ('coroutine', 'closure')
+            and inner and st['rv'].get('def') == inner[0].name]
+    if not inner or len(aggs) != 1:
+        ck.bad('R16f', 'anchor:async-block', o.where(), 'the async block calling service.call (and its construction in call()) was not found')
+        return
+    b = inner[0]
+    ck.analysed(o, b)
+    ops = aggs[0][2]['rv']['ops']
+    sc = b.calls(r'Service<.*>::call$|dev::Service<Req>::call$')
+    from rn.facts import op_place, pl_local
+    bool_idx = []
+    for i, op in enumerate(ops):
+        pl = op_place(op)
+        if pl is not None and o.local_ty(pl_local(pl)) == 'bool':
+            bool_idx.append(i)
+    ck.floor('R16f', 'bool flags captured by the async block', len(bool_idx), 2)
+
+    def classify_for(vals):
+        def classify(d, term):
+            if d['k'] == 'place' and d['root'].get('k') == 'arg' and d['root'].get('l') == 1 and d['fields'] and str(d['fields'][0]).isdigit() \
+                    and int(d['fields'][0]) in vals:
+                return ('bool', ('uv', int(d['fields'][0])))
+            if d['k'] == 'call' and (cfg.callee_name(d['term']) or '').endswith('String::is_empty'):
+                return ('bool', 'token_empty')
+            if d['k'] == 'discr':
+                pd = cfg.describe_operand(b, {'cp': d['pl']})
+                txt = cfg.fmt_desc(pd)
+                if 'get_user_session' in txt and d.get('adt') == 'std::result::Result':
+                    return ('variant', 'session_result')
+                if 'get_user_session' in txt and d.get('adt') == 'std::option::Option':
+                    return ('variant', 'session_option')
+            return None
+        return classify
+
+    def call_name(t):
+        return None
+    n = 0
+    consulted = set()
+    for r in rows:
+        if not auth_on_possible(r.conds):
+            continue
+        for p in concrete_paths(r.path):
+            under = p.lower().startswith('/nacos/') or p.lower().startswith('/rnacos/v1/')
+            if not under:
+                continue
+            key = '%s %s' % (r.method or '*', r.path)
+            try:
+                ev = OuterEval(fb, o, p, ('ServiceRequest::path', 'ServiceRequest::match_info', 'Path::<T>::as_str', 'Url::path'))
+                vals = {}
+                for i in bool_idx:
+                    v = ev.value(ops[i])
+                    if v is not None:
+                        vals[i] = v
+                consulted |= ev.consulted
+            except (PipeErr, ValueError, KeyError) as e:
+                ck.bad('R16f', 'pipeline:%s' % key, o.where(), 'cannot evaluate the middleware on %s: %s' % (p, e))
+                return
+            n += 1
+            leaks = []
+            for (te, sr, so) in ((True, 'Ok', 'Some'), (True, 'Err', 'None'), (False, 'Err', 'None'), (False, 'Ok', 'None')):
+                env = {('uv', i): v for i, v in vals.items()}
+                env.update({'token_empty': te, 'session_result': sr, 'session_option': so})
+                reach, flags = walk.table_walk(b, classify_for(vals), env, call_name)
+                if sc[0].bb in reach:
+                    leaks.append('token %s, session %s/%s' % ('empty' if te else 'present', sr, so))
+            env = {('uv', i): v for i, v in vals.items()}
+            env.update({'token_empty': False, 'session_result': 'Ok', 'session_option': 'Some'})
+            reach, flags = walk.table_walk(b, classify_for(vals), env, call_name)
+            live = sc[0].bb in reach
+            if p in ALLOWED_IGNORE:
+                ck.ok('R16f', 'route-exempt:%s' % key, r.site.where(), 'allowed exemption')
+            else:
+                ck.require(not leaks, 'R16f', 'route:%s' % key, r.site.where(),
+                           'with auth on, %s (handler %s) is served without a valid token (%s): the middleware evaluated on this path with the '
+                           'tree\'s tables lets the request through' % (key, r.handler, '; '.join(leaks)), 'refused without a valid session')
+            ck.require(live, 'R16f', 'route-live:%s' % key, r.site.where(), '%s is refused even with a valid session' % key)
+    ck.floor('R16f', 'route paths evaluated end to end', n, 50)
+    ck.extra['tables_consulted'] = sorted(consulted)
+
+
+def r16g(ck, fb):
+    ck.rule('R16g', 'path agreement: the string ApiCheckAuthMiddleware::call classifies (every argument of Regex::is_match / contains on the '
+                    'protected-path tables) is the path actix routes on - ServiceRequest::match_info().as_str(), the percent-decoded form - and '
+                    'not the raw request-line path ServiceRequest::path()/uri().path(); the middleware is fail-open for paths its regexes do '
+                    'not match, so "/%6Eacos/v1/cs/configs" would be routed to the config handler without ever being classified')
+    outer = [b for b in fb.find(r'auth_middle::ApiCheckAuthMiddleware<S> as actix_web::dev::Service<actix_web::dev::ServiceRequest>>::call$')]
+    if not outer:
+        ck.bad('R16g', 'anchor:call', '-', 'ApiCheckAuthMiddleware::call not found')
+        return
+    n = 0
+    for b in util.region(fb, outer[0]):
+        for st in b.calls(r'regex::Regex::is_match$|::contains$'):
+            nm = _static_name(b, st.args[0]) or ''
+            if 'METRICS' in nm:
+                continue   # metrics bookkeeping only, not an access decision
+            n += 1
+            txt = cfg.fmt_desc(cfg.describe_operand(b, st.args[1]))
+            raw = 'ServiceRequest::path' in txt or 'Uri::path' in txt or 'HttpRequest::path' in txt
+            routed = 'match_info' in txt or 'Path::<T>::as_str' in txt
+            ck.require(routed and not raw, 'R16g', 'classifies-routed-path:%s' % (nm.split('::')[-1] or st.callee), st.where(),
+                       'the access decision consults %s with %s: the raw request path, while actix dispatches on the percent-decoded path '
+                       '(Url::new requotes it); an encoded spelling of a protected route is served without a token' % (nm.split('::')[-1], txt[:60]),
+                       'classifies match_info().as_str()')
+    ck.floor('R16g', 'path classification sites', n, 2)
+
+
 def r16d(ck, fb):
     ck.rule('R16d', 'ApiCheckAuthMiddleware::call: is_check_path = (API_PATH.is_match || R_NACOS_API_PATH.is_match) && !IGNORE_PATH.contains when '
                     'enable_auth; in the async block service.call(request) is edge-dominated by pass == true, and pass is true only if '
                     '!enable_auth || !is_check_path || (token non-empty and get_user_session(..) == Ok(Some(_))); token order header, query, body')
     outer = [b for b in fb.find(r'auth_middle::ApiCheckAuthMiddleware<S> as actix_web::dev::Service<actix_web::dev::ServiceRequest>>::call$')]
-    ck.require(len(outer) == 1, 'R16d', 'anchor:call', '-', 'ApiCheckAuthMiddleware::call not found')
+    ck.require(len(outer) >= 1, 'R16d', 'anchor:call', '-', 'ApiCheckAuthMiddleware::call not found')
     if not outer:
         return
     o = outer[0]
     ck.analysed(o)
     im = o.calls(r'regex::Regex::is_match$')
     ct = o.calls(r'slice::<impl \[T\]>::contains$|Vec::<T, A>::contains$|::contains$')
-    ck.require(len(im) == 2 and len(ct) >= 1, 'R16d', 'call:is_check_path-inputs', o.where(), 'is_check_path is not computed from both regexes and IGNORE_PATH.contains')
-    statics = set()
-    for s in o.calls(r'as std::ops::Deref>::deref$'):
-        m = re.search(r'auth_middle::(\w+) as', s.full or '')
-        if m:
-            statics.add(m.group(1))
-    ck.require({'API_PATH', 'R_NACOS_API_PATH', 'IGNORE_PATH'} <= statics, 'R16d', 'call:uses-tables', o.where(), 'call() does not consult %s' % sorted({'API_PATH', 'R_NACOS_API_PATH', 'IGNORE_PATH'} - statics))
+    ck.require(len(im) >= 1 and len(ct) >= 1, 'R16d', 'call:is_check_path-inputs', o.where(), 'is_check_path is not computed from a path regex and an exemption list')
     ef = util.read_fields(o)
     ck.require('openapi_enable_auth' in ef, 'R16d', 'call:reads-enable_auth', o.where(), 'enable_auth is not read from sys_config.openapi_enable_auth')
     inner = fb.tree(o.name)[1:]
     blk = [b for b in inner if b.calls(r'Service<.*>::call$|dev::Service<Req>::call$')]
-    ck.require(len(blk) == 1, 'R16d', 'anchor:async-block', o.where(), 'the async block calling service.call was not found')
+    ck.require(len(blk) >= 1, 'R16d', 'anchor:async-block', o.where(), 'the async block calling service.call was not found')
     if not blk:
         return
     b = blk[0]
@@ -304,7 +540,7 @@ def r16d(ck, fb):
             bad = 'with %s the 403 branch is %s' % (env, 'reached' if f403[0].bb in r else 'not reached')
             break
     ck.require(bad is None, 'R16d', 'block:pass-table', sc[0].where(), bad or '', '%d rows' % rows_n)
-    ck.require(len(f403) == 1, 'R16d', 'block:refusal-403', b.where(), 'the refusal branch does not build HttpResponse::Forbidden')
+    ck.require(len(f403) >= 1, 'R16d', 'block:refusal-403', b.where(), 'the refusal branch does not build HttpResponse::Forbidden')
     # session lookup happens only for non-empty token; empty token -> pass = false
     ie = [s for s in b.calls(r'String::is_empty$')]
     ok_e = False
@@ -390,7 +626,7 @@ def r16e(ck, fb):
             ck.require(name not in ign or name in ('SERVER_CHECK_REQUEST', 'HEALTH_CHECK_REQUEST'), 'R16e', 'handler-not-exempt:%s' % name, s.where(),
                        'gRPC data request %s is exempt from authentication' % name)
     h = fb.find(r'InvokerHandler as rnacos::grpc::PayloadHandler>::handle$')
-    ck.require(len(h) == 1, 'R16e', 'anchor:InvokerHandler::handle', '-', 'InvokerHandler::handle not found')
+    ck.require(len(h) >= 1, 'R16e', 'anchor:InvokerHandler::handle', '-', 'InvokerHandler::handle not found')
     if not h:
         return
     m = fb.main(h[0].name)
